@@ -97,10 +97,37 @@ func c03Instances(h string) func(string) []*Instance {
 	}
 }
 
-var c03Labels = map[string]bool{"isvalid-iff-nil": true, "accepted-implies-wellformed": true, "two-last-words-same-entropy-both-accepted": true}
+var c03Labels = map[string]bool{"isvalid-iff-nil": true, "accepted-implies-wellformed": true, "two-last-words-same-entropy-both-accepted": true,
+	"non-list-token-rejected": true, "non-list-token-invalid": true}
+
+// c03ByteInstances: sentences with one non-list token of L arbitrary lowercase letters (H_C03_bytes).
+func c03ByteInstances(tier string) []*Instance {
+	var out []*Instance
+	langs := []int64{2}
+	sizes := []int64{12, 24}
+	lens := []int64{3, 7}
+	if tier == "thorough" {
+		langs = []int64{2, 3, 5, 8}
+		sizes = sizesN
+		lens = []int64{3, 4, 5, 6, 7, 8}
+	}
+	for _, l := range langs {
+		for _, n := range sizes {
+			for _, L := range lens {
+				for _, pos := range []int64{0, n - 1} {
+					for _, sym := range []int64{1, 0} {
+						out = append(out, &Instance{Harness: "H_C03_bytes", Args: []int64{l, n, L, pos, sym}, Lang: int(l), MaxWitnesses: 1})
+					}
+				}
+			}
+		}
+	}
+	return out
+}
 var c15Labels = map[string]bool{"first-language-verdict": true, "second-language-accepts-iff-wellformed-in-that-language": true, "second-language-unknown-word-error": true, "first-language-verdict-again": true,
 	"count-defect-gives-ErrWordLen": true, "checksum-defect-gives-ErrChecksumIncorrect": true,
-	"unknown-word-gives-other-error-naming-it": true, "accepted-implies-wellformed": true}
+	"unknown-word-gives-other-error-naming-it": true, "accepted-implies-wellformed": true,
+	"unknown-token-gives-other-error": true, "error-names-the-token": true}
 
 func properties() map[string]*PropertySpec {
 	ps := map[string]*PropertySpec{}
@@ -129,11 +156,12 @@ func properties() map[string]*PropertySpec {
 		Instances: func(tier string) []*Instance {
 			out := c03Instances("H_C03")(tier)
 			out = append(out, instLS("H_C03_count", allLangs(), sizesN)...)
+			out = append(out, c03ByteInstances(tier)...)
 			return out
 		},
 		Labels:  c03Labels,
-		Bounds:  []string{"input = any string whose NFKD form is n non-empty tokens separated by single U+0020, n = 0..27 (quick: all n for English and Japanese, n in {11,12,15,18,21,24,25} for the other eight), optionally with one extra separator (leading, trailing or doubled in the middle) for n in {11,12,14,23,24}", "each token: any canonical word, any other interned string, or an arbitrary non-member token"},
-		Outside: []string{"n >= 28 tokens", "tokens are observed only through equality/map membership (code inspecting characters is reported inconclusive)", "non-SP whitespace inside the normal form is covered only as part of a non-member token"},
+		Bounds:  []string{"input = any string whose NFKD form is n non-empty tokens separated by single U+0020, n = 0..27 (quick: all n for English and Japanese, n in {11,12,15,18,21,24,25} for the other eight), optionally with one extra separator (leading, trailing or doubled in the middle) for n in {11,12,14,23,24}", "each token: any canonical word, any other interned string, or an arbitrary non-member token", "byte-level tokens (H_C03_bytes): one token of L arbitrary lowercase ASCII letters that is no list word (quick: English, L in {3,7}, 12 and 24 words, first or last position; thorough: four languages, L = 3..8, all sizes), the other words canonical with symbolic or fixed indices; len, indexing, range and []byte conversion of that token are encoded byte by byte, integer-keyed maps with a symbolic key as first-match chains"},
+		Outside: []string{"n >= 28 tokens", "apart from the byte-level token, tokens are observed only through equality/map membership (code inspecting characters of other tokens is reported inconclusive)", "inverting a 32-bit multiplicative hash of the token bytes inside the engine: z3 answered unknown at 60 s in both the incremental and the one-shot process (a stand-alone query took 4-75 s), so a hash-collision acceptance is reported inconclusive, not decided", "non-SP whitespace inside the normal form is covered only as part of a non-member token"},
 		Stubs:   []string{stubSHA, stubBig, stubStr, stubNFKD, stubOnce},
 	}
 	ps["C15"] = &PropertySpec{ID: "C15", Level: "model_checking",
@@ -142,6 +170,7 @@ func properties() map[string]*PropertySpec {
 			for _, pr := range [][2]int64{{2, 3}, {3, 2}, {7, 2}} {
 				out = append(out, &Instance{Harness: "H_C13_xlang", Args: []int64{pr[0], pr[1], 12}, Lang: int(pr[0]), MaxWitnesses: 1})
 			}
+			out = append(out, c03ByteInstances(tier)...)
 			return out
 		},
 		Labels: c15Labels,
@@ -241,6 +270,12 @@ func properties() map[string]*PropertySpec {
 				out = instLS("H_C06", []int64{2, 5}, sizesN, 4)
 				out = append(out, instLS("H_C06", []int64{0, 1, 3, 4, 6, 7, 8, 9}, []int64{12, 24}, 2)...)
 			}
+			// a source that fails persistently after an optional short first delivery (up to 8 / 16 reads)
+			if tier == "thorough" {
+				out = append(out, instLS("H_C06_stuck", allLangs(), sizesN, 16)...)
+			} else {
+				out = append(out, instLS("H_C06_stuck", []int64{2, 5}, []int64{12, 24}, 8)...)
+			}
 			// one-byte fragmentation of the whole delivery, with idle reads first (up to 35 Read calls)
 			if tier == "thorough" {
 				for _, z := range []int64{0, 1, 3} {
@@ -252,7 +287,7 @@ func properties() map[string]*PropertySpec {
 			}
 			return out
 		},
-		Bounds:  []string{"word count n in {12,15,18,21,24}", "at most R Read calls per NewMnemonic with symbolic fragment sizes and failures (quick R=4 for English/Japanese, R=2 others; thorough R=6 for English/Japanese, R=3 others)", "plus the fixed one-byte fragmentation of the whole delivery preceded by z idle reads (4n/3+z calls, z<=1 quick, z<=3 thorough; delivered bytes symbolic)", "each Read: symbolic fragment size 0..len(p), symbolic outcome nil/io.EOF/io.ErrUnexpectedEOF/other error/error that calls itself temporary, bytes may accompany an error", "io.ReadFull / io.ReadAtLeast executed from their real SSA"},
+		Bounds:  []string{"word count n in {12,15,18,21,24}", "at most R Read calls per NewMnemonic with symbolic fragment sizes and failures (quick R=4 for English/Japanese, R=2 others; thorough R=6 for English/Japanese, R=3 others)", "plus the fixed one-byte fragmentation of the whole delivery preceded by z idle reads (4n/3+z calls, z<=1 quick, z<=3 thorough; delivered bytes symbolic)", "stuck source (H_C06_stuck): optional first delivery of k0 < 4n/3 bytes, then every read fails the same way (EOF / unexpected EOF / other / temporary) with no bytes, up to 8 reads quick, 16 thorough", "each Read: symbolic fragment size 0..len(p), symbolic outcome nil/io.EOF/io.ErrUnexpectedEOF/other error/error that calls itself temporary, bytes may accompany an error", "io.ReadFull / io.ReadAtLeast executed from their real SSA"},
 		Outside: []string{"sources needing more than R reads (paths end in an assumption)", "readers violating the io.Reader contract (n > len(p), n < 0)"},
 		Stubs:   []string{stubSHA, stubBig, stubStr},
 	}
@@ -329,7 +364,7 @@ func properties() map[string]*PropertySpec {
 				{Harness: "H_C14_String", Lang: 2, MaxWitnesses: 2},
 				{Harness: "H_C14_Seed", Lang: 2, MaxWitnesses: 1},
 			}
-			ns := []int64{0, 1, 11, 12, 13, 15, 16, 24, 25}
+			ns := []int64{0, 1, 11, 12, 13, 15, 16, 24, 25, 27}
 			if tier == "thorough" {
 				ns = counts0to27()
 			}
@@ -353,7 +388,7 @@ func properties() map[string]*PropertySpec {
 			}
 			return out
 		},
-		Bounds:  []string{"Language: every int64", "word count: every int64", "entropy: every length 0..40 with symbolic contents", "sentences: token sequences of n tokens (quick n in {0,1,11,12,15,24,25}, thorough 0..27)", "reader: <=2 reads with symbolic fragment and failure", "every index, slice, nil-map, nil-deref, division, shift, type-assertion and big.Int precondition on every path is an SMT obligation"},
+		Bounds:  []string{"Language: every int64", "word count: every int64", "entropy: every length 0..40 with symbolic contents", "sentences: token sequences of n tokens (quick n in {0,1,11,12,13,15,16,24,25,27}, thorough 0..27), the raw text any pre-image of the normal form (counts of a whitespace rune in the raw text: any value up to the number of separators)", "reader: <=2 reads with symbolic fragment and failure", "every index, slice, nil-map, nil-deref, division, shift, type-assertion and big.Int precondition on every path is an SMT obligation"},
 		Outside: []string{"NFKD and PBKDF2 assumed total and terminating on every byte string", "huge inputs (memory exhaustion)"},
 		Stubs:   []string{stubSHA, stubBig, stubStr, stubNFKD, stubOnce, stubK},
 	}
